@@ -542,6 +542,14 @@ def _const_eval(test, subst: dict):
         return None
 
 
+def _int_lit(e):
+    if isinstance(e, ast.Constant) and isinstance(e.value, int) and not isinstance(e.value, bool):
+        return e.value
+    if isinstance(e, ast.UnaryOp) and isinstance(e.op, ast.USub) and isinstance(e.operand, ast.Constant) and isinstance(e.operand.value, int):
+        return -e.operand.value
+    return None
+
+
 def default_operator(fn: ast.FunctionDef):
     """The value `operator` takes when it was None, from the recognised defaulting idioms; None if no idiom found."""
     for s in fn.body:
@@ -591,14 +599,48 @@ def rule_cauchy_wiring(rep: Report, repo: Repo):
             if not (isinstance(v, ast.Call) and call_name(v) == "cauchy_dot_product"):
                 raise AnalysisError(RC, f">2 branch returns `{norm(v)[:80]}`")
             outer = v
-            ok = (len(outer.args) == 2 and isinstance(outer.args[0], ast.Call) and call_name(outer.args[0]) == "cauchy_dot_product"
-                  and isinstance(outer.args[1], ast.Starred) and norm(outer.args[1].value) == "series[2:]")
-            inner = outer.args[0] if ok else None
-            ok = ok and len(inner.args) == 1 and isinstance(inner.args[0], ast.Starred) and norm(inner.args[0].value) == "series[:2]"
+            nested = [outer]
+
+            def factors(call, N):
+                """flattened factor positions of a (nested) cauchy_dot_product call for N series; None if a reference is not
+                understood; every call must take at least 2 and fewer than N factors (the recursion terminates)"""
+                out, count = [], 0
+                for a in call.args:
+                    if isinstance(a, ast.Call) and call_name(a) == "cauchy_dot_product":
+                        if a not in nested:
+                            nested.append(a)
+                        sub = factors(a, N)
+                        if sub is None:
+                            return None
+                        out += sub
+                        count += 1
+                    elif isinstance(a, ast.Starred) and isinstance(a.value, ast.Subscript) and norm(a.value.value) == "series" \
+                            and isinstance(a.value.slice, ast.Slice) and a.value.slice.step is None:
+                        lo = 0 if a.value.slice.lower is None else _int_lit(a.value.slice.lower)
+                        hi = N if a.value.slice.upper is None else _int_lit(a.value.slice.upper)
+                        if lo is None or hi is None:
+                            return None
+                        r = list(range(N))[lo:hi]
+                        out += r
+                        count += len(r)
+                    elif isinstance(a, ast.Subscript) and norm(a.value) == "series" and _int_lit(a.slice) is not None:
+                        out.append(list(range(N))[_int_lit(a.slice)])
+                        count += 1
+                    else:
+                        return None
+                if not 2 <= count < N:
+                    return [-1]
+                return out
+            grid = {N: factors(outer, N) for N in (3, 4, 5, 8)}
+            if any(g is None for g in grid.values()):
+                raise AnalysisError(RC, f">2 branch: factor references in `{norm(v)[:100]}` not understood")
+            ok = all(g == list(range(N)) for N, g in grid.items())
+            inner = nested[1] if len(nested) > 1 else None
+            ok = ok and inner is not None
             rep.check(bool(ok), RC, "series::cauchy_dot_product >2 factors: (A.B).rest covers all factors in order", norm(v)[:140], loc(o.node))
             if not ok:
                 continue
-            kws = [{k.arg: norm(k.value) for k in c.keywords} for c in (outer, inner)]
+            kws = [{k.arg: norm(k.value) for k in c.keywords} for c in nested]
             rep.check(all(k.get("operator") == "operator" for k in kws), RC,
                       "series::cauchy_dot_product >2 factors: same operator passed down", str(kws), loc(o.node))
             rep.check(all(k.get("hermitian", "False") == "False" for k in kws), RC,
